@@ -269,9 +269,21 @@ func coverCheck(obs []*Oblig, pres map[*Exec][2]string, timeoutS int, dir string
 		go func(i int, o *Oblig) {
 			defer wg.Done()
 			defer func() { <-sem }()
+			// the goals of obligations that were NOT discharged (undecided, listed as not claimed) are
+			// assumed for what follows them; a path that is only dead because of such an assumption is
+			// not a contradiction in the contracts, so those lines are left out of the vacuity query
+			skip := map[int]bool{}
+			for _, p := range o.ex.obligs {
+				if p.Res == nil || p.Res.Status != "unsat" {
+					skip[p.AssumeLine] = true
+				}
+			}
 			var b strings.Builder
 			b.WriteString(pres[o.ex][0])
-			for _, l := range o.ex.e.lines[:o.Cut] {
+			for li, l := range o.ex.e.lines[:o.Cut] {
+				if skip[li] {
+					continue
+				}
 				b.WriteString(l)
 				b.WriteByte('\n')
 			}
@@ -286,7 +298,10 @@ func coverCheck(obs []*Oblig, pres map[*Exec][2]string, timeoutS int, dir string
 				// contradiction introduced by an assumption inside the block
 				var b2 strings.Builder
 				b2.WriteString(pres[o.ex][0])
-				for _, l := range o.ex.e.lines[:o.StartCut] {
+				for li, l := range o.ex.e.lines[:o.StartCut] {
+					if skip[li] {
+						continue
+					}
 					b2.WriteString(l)
 					b2.WriteByte('\n')
 				}
